@@ -1006,9 +1006,9 @@ def gen_mesh(rng, tier, kind):
 
 def gen_recon(rng, tier):
     ops = []
-    kinds = ['tet'] * 6 + ['mixed'] * 8 + ['tri'] * 8
+    kinds = ['tet'] * 10 + ['mixed'] * 16 + ['tri'] * 14
     if tier != 'quick':
-        kinds = kinds * 4
+        kinds = kinds * 3
     for kind in kinds:
         twod, pts, cells = gen_mesh(rng, tier, kind)
         a, g = lin_field(rng)
